@@ -218,8 +218,51 @@ class Block:
         self.preds = []
 
 
+def _canonicalise_params(raw):
+    """Alpha-rename: the first parameter of type (const) m_mod_t * is called `mod` in the fact base whatever the source calls it
+    (a rename of that parameter is behaviour preserving and must not disturb rules that spell atoms over it)."""
+    target = None
+    for p in raw["params"]:
+        if p["t"].replace("const ", "").strip() == "m_mod_t *":
+            target = p
+            break
+    if target is None or target["name"] == "mod" or raw.get("_canon"):
+        return
+    used = set()
+
+    def names(e):
+        if isinstance(e, dict):
+            if e.get("k") == "var":
+                used.add(e.get("name"))
+            if "name" in e and "ev" in e:
+                used.add(e["name"])
+            for v in e.values():
+                names(v)
+        elif isinstance(e, list):
+            for v in e:
+                names(v)
+    names(raw["blocks"])
+    if "mod" in used or any(p["name"] == "mod" for p in raw["params"]):
+        return
+    old = target["name"]
+
+    def ren(e):
+        if isinstance(e, dict):
+            if e.get("k") == "var" and e.get("vk") == "param" and e.get("name") == old:
+                e["name"] = "mod"
+            for v in e.values():
+                ren(v)
+        elif isinstance(e, list):
+            for v in e:
+                ren(v)
+    ren(raw["blocks"])
+    target["name"] = "mod"
+    raw["_canon"] = old
+
+
 class Func:
     def __init__(self, raw, unit):
+        _canonicalise_params(raw)
         self.raw = raw
         self.name = raw["name"]
         self.unit = unit
